@@ -52,6 +52,47 @@ func runEntityJSON(payload []*Sx) *Sx {
 	if err != nil || !bytes.Equal(b1, b2) {
 		return L(A("entitymap-second-encoding-differs"), AS(string(b1)), AS(string(b2)))
 	}
+	// decoding INTO a variable that already holds a value (a reused loop variable, a copy taken from a map): every entity decoded
+	// earlier keeps what it was decoded to, and the map decoded over an old one equals the fresh decode
+	{
+		var uids []types.EntityUID
+		for uid := range em {
+			uids = append(uids, uid)
+		}
+		sort.Slice(uids, func(i, j int) bool { return uids[i].String() < uids[j].String() })
+		collected := types.EntityMap{}
+		var cur types.Entity
+		for _, uid := range uids {
+			eb, _ := json.Marshal(em[uid])
+			if err := json.Unmarshal(eb, &cur); err != nil {
+				return L(A("entity-does-not-decode-into-a-reused-variable"), valueToSx(uid))
+			}
+			collected[cur.UID] = cur
+		}
+		for _, uid := range uids {
+			if got, ok := collected[uid]; !ok || !got.Equal(em[uid]) {
+				return L(A("entity-decoded-earlier-changed-by-a-later-decode"), valueToSx(uid))
+			}
+		}
+		over := em2.Clone()
+		keep := em2.Clone()
+		var small types.EntityMap
+		if len(uids) > 0 {
+			sb, _ := json.Marshal(types.EntityMap{uids[0]: em[uids[0]]})
+			_ = json.Unmarshal(sb, &small)
+		}
+		for uid, e := range over {
+			dst := e
+			eb, _ := json.Marshal(types.Entity{UID: uid})
+			_ = json.Unmarshal(eb, &dst)
+			_ = dst
+		}
+		for uid, e := range keep {
+			if e2, ok := em2[uid]; !ok || !e2.Equal(e) || !e.Equal(em[uid]) {
+				return L(A("entity-in-a-map-changed-by-decoding-into-a-copy"), valueToSx(uid))
+			}
+		}
+	}
 	rq := reqFromSx(payload[1])
 	req, ok := rq.concrete()
 	if ok {
